@@ -51,9 +51,14 @@ def run(prop, tier, plan, assumptions):
                        "explanation": "check could not start: %s" % e}, assumptions, timer.s(), 0)
         return BROKEN
     tot = dict(paths=0, queries=0, obligations=0, discharged=0, solver_s=0.0, infeasible=0)
-    for name, body in checks:
+    for item in checks:
+        name, body = item[0], item[1]
+        custom = len(item) > 2 and item[2] == "custom"
         try:
-            st, fails = explore(name, body, seed=seed(), keep_smt2=(tier == "thorough"))
+            if custom:
+                st, fails = body(seed())
+            else:
+                st, fails = explore(name, body, seed=seed(), keep_smt2=(tier == "thorough"))
         except Unsupported as e:
             log("  [mirsym] %-40s BROKEN: %s" % (name, e))
             broken.append("%s: %s" % (name, e))
@@ -65,7 +70,7 @@ def run(prop, tier, plan, assumptions):
         log("  [mirsym] %-40s paths=%d queries=%d obligations=%d/%d solver=%.1fs%s" % (
             name, st.paths, st.queries, st.discharged, st.obligations, st.solver_s,
             "  FAILS=%d" % len(fails) if fails else ""))
-        if st.paths == 0 or st.obligations == 0:
+        if st.paths == 0 or (st.obligations == 0 and not custom):
             broken.append("%s: vacuous (no feasible path / no obligation)" % name)
         per_check.append({"check": name, "paths": st.paths, "infeasible_prefixes": st.infeasible,
                           "solver_queries": st.queries, "obligations": st.obligations,
